@@ -70,7 +70,7 @@ def opt_amb(ctx):
     return out
 
 
-@rule("OPT-DISJOINT-CONSERVATIVE", ["C08", "C01"], floor=3)
+@rule("OPT-DISJOINT-CONSERVATIVE", ["C08", "C01", "C12", "C09", "C10"], floor=3)
 def opt_disjoint(ctx):
     """CharacterClass::is_disjoint answers true only after every character of one class was tested against the
     other; a hit and the give-up threshold answer false."""
